@@ -412,3 +412,23 @@ gproof! { fn c04_thin_with_arc_mut_replace_counts() {
     assert!(vrt::ga(2) && vrt::gd(0));
     core::mem::forget(t);
 } }
+
+// @h props=C04,C10,C01 fuc=ThinArc::with_arc_mut,Arc::clone,Arc::count note="inside the mutable borrow the count is what it was; a clone made inside is +1 and still visible afterwards"
+gproof! { fn c04_thin_with_arc_mut_clone_inside() {
+    let n = any_count();
+    kani::assume(n < isize::MAX as usize);
+    let (mut t, len, h, buf) = mk_thin_u32(n);
+    let (b0, c0) = (tbase(&t), tcw(&t));
+    let keep: bool = kani::any();
+    let seen = t.with_arc_mut(|a| {
+        let inside = Arc::count(a);
+        assert!(base(a) == b0 && Arc::strong_count(a) == inside);
+        let c = a.clone();
+        assert!(Arc::count(a) == inside + 1);
+        if keep { core::mem::forget(c); } else { drop(c); }
+        inside
+    });
+    assert!(seen == n && rd(c0) == if keep { n + 1 } else { n } && tbase(&t) == b0 && rlen(&t) == len && tvalid(&t));
+    assert!(vrt::ga(1) && vrt::gd(0));
+    core::mem::forget(t);
+} }
